@@ -52,7 +52,7 @@ def run(ctx):
         s = ctx.seed
         cases = [c for c in cases if c['kind'] in ('field', 'merkle', 'transcript')
                  or (c['kind'] == 'fixed' and (c['chunking'] == 'one' or c['id'] % 6 == s % 6))
-                 or (c['kind'] == 'varlen' and c['id'] % 8 == s % 8)]
+                 or (c['kind'] == 'varlen' and (c['id'] % 8 == s % 8 or (c.get('maxpad') == 'spills' and c['pad'] == 'spills' and c['minlen'] == 0)))]
     byid = {c['id']: c for c in cases}
     curves = ['bn254'] if quick else ['bn254', 'bls12-377', 'bw6-761']
     for curve in curves:
